@@ -434,3 +434,102 @@ def r_key_declared(cx):
                       "the option can never be set and is silently ignored (declared: %s)" % (
                           c.names[0], fname, m, key, c.path, sorted(flags)[:8]), cx.where(f.term(bb)["span"]))
     cx.count("R-KEY-DECLARED", "reads", n)
+
+
+# ---------------------------------------------------------------------------------------------------------------------
+# R-ELLPS-SHADOW (C07, C16): `ellps_0` is not dead behind `ellps`
+
+@rule("R-ELLPS-SHADOW", ["C07", "C16"])
+def r_ellps_shadow(cx):
+    """ParsedParameters::ellps(0) returns the ellipsoid named by `ellps` whenever that key is present, and only
+    otherwise the one named by `ellps_0`. `ellps` is present for every operator that declares it (gamut default, or
+    the context's global default). An operator that declares both `ellps` and `ellps_0` must therefore itself give a
+    user supplied `ellps_0` precedence over the defaulted `ellps` (store it under `ellps`), or `ellps_0` has no effect
+    at all. The premise is checked too: ellps(0) consults `ellps` first."""
+    # premise: the accessor
+    f = cx.f.fn(K.PP + "::ellps")
+    order = []
+    for bb, t in f.calls():
+        c = f.callee(t) or ""
+        if c.endswith("BTreeMap::<K, V, A>::get"):
+            k = K._const_key(f.arg_terms(bb)[1])
+            order.append((bb, k))
+    first_is_ellps = bool(order) and order[0][1] == "ellps" and not any(
+        f.dominates(b, order[0][0]) for b, _ in order[1:])
+    cx.ob("R-ELLPS-SHADOW", "accessor/ellps-first", True,
+          "ParsedParameters::ellps(0) consults `ellps` before `ellps_0`" if first_is_ellps else
+          "ParsedParameters::ellps no longer prefers `ellps` (the shadowing premise does not hold; operators are not "
+          "judged)", cx.where(f.d["span"]), nontrivial=False)
+    reg = cx.registry()
+    n = 0
+    for cpath, c in sorted(reg.ctors.items()):
+        keys = set()
+        for g in (c.gamut or []):
+            if isinstance(g, dict) and g.get("key"):
+                keys.add(g["key"])
+        if not ({"ellps", "ellps_0"} <= keys):
+            continue
+        n += 1
+        if not first_is_ellps:
+            continue
+        mod = cpath.rsplit("::", 1)[0] + "::"
+        ok = False
+        for gname in sorted(reg.reachable_from([cpath], follow_virtual=False)):
+            if not gname.startswith(mod):
+                continue
+            g = cx.f.fn(gname)
+            for (bb, m, key, val) in K.inserts_in(cx.f, g):
+                if m == "text" and key == "ellps" and val is not None:
+                    src = []
+
+                    def v(x):
+                        if x[0] == "call" and isinstance(x[1], str) and len(x[2]) > 1 and K._const_key(x[2][1]) == "ellps_0":
+                            src.append(x)
+                        return True
+                    mir.walk(val, v)
+                    if src:
+                        ok = True
+        cx.ob("R-ELLPS-SHADOW", "%s/ellps_0" % c.names[0], ok,
+              "%s stores a given `ellps_0` under `ellps`, so it is not shadowed by the default" % c.names[0] if ok else
+              "%s declares both `ellps` and `ellps_0`: `ellps` is always present (default), ellps(0) prefers it, and the "
+              "constructor never gives `ellps_0` precedence - the parameter `ellps_0` is silently ignored" % c.names[0],
+              cx.where(cx.f.fn(cpath).d["span"]))
+    cx.count("R-ELLPS-SHADOW", "operators_with_both", n)
+
+
+# ---------------------------------------------------------------------------------------------------------------------
+# R-PLACEHOLDER (C10): the stand-in for a missing inverse reports nothing done
+
+@rule("R-PLACEHOLDER", ["C10"])
+def r_placeholder(cx):
+    """The function standing in for the unsupported inverse of a one-way operator (InnerOp::default) touches nothing
+    and returns 0 - "the unsupported inverse of a one-way operator reports zero and leaves the data untouched"."""
+    import elems as E
+    d = cx.f.fn("<inner_op::InnerOp as std::default::Default>::default")
+    target = None
+    for bb, i, s in d.all_stmts():
+        if s["k"] == "assign":
+            v = d.rvalue(s["rv"], (bb, i))
+            found = []
+
+            def vis(x):
+                if x[0] == "const" and isinstance(x[2], tuple) and x[2] and x[2][0] == "fn":
+                    found.append(x[2][1])
+                return True
+            mir.walk(v, vis)
+            if found:
+                target = found[0]
+    ok = False
+    why = "InnerOp::default does not name a function"
+    where = cx.where(d.d["span"])
+    if target and cx.f.has_fn(target):
+        g = cx.f.fn(target)
+        where = cx.where(g.d["span"])
+        rt = E.return_term(g)
+        writes = [bb for bb, t in g.calls() if "CoordinateSet" in (t.get("callee") or g.callee(t) or "")]
+        ok = rt is not None and rt[0] == "const" and rt[2] == 0 and not writes
+        why = "%s %s" % (target, "calls CoordinateSet methods" if writes else "does not return the constant 0")
+    cx.ob("R-PLACEHOLDER", "InnerOp::default", ok,
+          "the placeholder for a missing inverse (%s) writes nothing and returns 0" % target if ok else
+          "the placeholder for a missing inverse is not inert: %s" % why, where)
+    cx.count("R-PLACEHOLDER", "placeholders", 1 if target else 0)
